@@ -32,6 +32,10 @@ func init() {
 func runC14(c *core.Ctx) {
 	c.MinInstances("C14-DEPEND", 3)
 	c.MinInstances("C14-ESC", 2)
+	// "no character is cut" presupposes that parts are cut at the capacity of the codec that produced the octets and that
+	// the splitters tile the buffer (C06 templates, which import the codec and GSM 7-bit rule sets)
+	c.MinInstances("C14-SPLIT", 200)
+	importRules(c, "C06", "C14-SPLIT", nil)
 	c.Trust("VTA call graph for the set of codecs reaching a call site", "the list of multi-unit codings (UCS-2, GB18030, unpacked GSM 7-bit)")
 	c.NotDecided("correctness of a data-dependent boundary adjustment for UCS-2/GB18030 (none exists today)")
 	g := extractGenericSplit(c)
@@ -56,7 +60,11 @@ func runC14(c *core.Ctx) {
 	}
 	multiUnit := map[string]string{"UCS2": "UTF-16 surrogate pairs", "GB18030": "2- and 4-octet characters", "GSM7Unpacked": "escape pairs (0x1B + code)"}
 	if dep {
-		c.OK("C14-DEPEND", "splitWithUDHI", c.Prog.Pos(g.fn.Pos()), "cut positions depend on the data (a boundary adjustment exists); its correctness is not decided here")
+		// A data-dependent cut in the splitter shared by all octet codings is only right if it is right for each coding that
+		// reaches it (UCS-2 units and surrogate pairs, GB18030 1/2/4-octet characters, GSM 7-bit escape pairs need different
+		// rules). No template for such a per-coding rule exists in this checker, so the construct is undecided (fails closed)
+		// rather than waved through.
+		c.Unknown("C14-DEPEND", "splitWithUDHI#data-dependent", c.Prog.Pos(g.fn.Pos()), "the shared splitter's cut positions now depend on the content; whether the adjustment keeps the characters of every coding that reaches it whole is not decided by any rule here")
 		c.OK("C14-DEPEND", "splitWithUDHI#2", "", "n/a")
 		c.OK("C14-DEPEND", "splitWithUDHI#3", "", "n/a")
 	} else {
